@@ -134,5 +134,10 @@ theorem runtime_error_counted (key : Bytes) (m : Bool) (r : RT) (h : Bytes × Ha
     or clause; DESIGN.md §11.6a) -/
 theorem loader_skeletons : Skeletons.LoaderShape := Skeletons.loader_shape
 theorem exec_skeletons : Skeletons.ExecShape := Skeletons.exec_shape
+theorem f_vm_vm_skeletons : Skeletons.F_vm_vmShape := Skeletons.f_vm_vm_shape
+theorem f_runtime_runtime_skeletons : Skeletons.F_runtime_runtimeShape := Skeletons.f_runtime_runtime_shape
+theorem f_mtail_mtail_skeletons : Skeletons.F_mtail_mtailShape := Skeletons.f_mtail_mtail_shape
+theorem f_logstream_reader_skeletons : Skeletons.F_logstream_readerShape := Skeletons.f_logstream_reader_shape
+theorem f_tailer_tail_skeletons : Skeletons.F_tailer_tailShape := Skeletons.f_tailer_tail_shape
 
 end MtailVerif.C25
